@@ -170,6 +170,8 @@ def check_one(cls, m, where):
     a, b = session.reparse_struct(m), session.reparse_struct(again)
     if a != b:
         out.append((f'C15:reparse-differs:{cls.__name__}', f'{intro.struct_diff(a, b)} text={text!r}'))
+    elif session.comment_values(m) != session.comment_values(again):
+        out.append((f'C15:reparse-comment-values:{cls.__name__}', f'{session.comment_values(m)!r} != {session.comment_values(again)!r} text={text!r}'))
     return out
 
 
